@@ -157,6 +157,8 @@ def load(prog, name=None):
     mod = types.ModuleType(modname)
     mod.__file__ = filename
     sys.modules[modname] = mod
+    from rv import rt as _rt
+    _rt.PROGS[modname] = prog
     code = compile(src, filename, 'exec', dont_inherit=True)
     exec(code, mod.__dict__)
     return mod
@@ -164,6 +166,8 @@ def load(prog, name=None):
 
 def unload(mod):
     sys.modules.pop(mod.__name__, None)
+    from rv import rt as _rt
+    _rt.PROGS.pop(mod.__name__, None)
     linecache.cache.pop(getattr(mod, '__file__', ''), None)
 
 
